@@ -310,6 +310,118 @@ def norm_tokens_local(src, lo, hi):
 VERUS_LIFTS["closure_block"] = closure_block_range
 
 
+# ---------------------------------------------------------------------------
+# Lexical disambiguation of the token candidates (C06): the `if tokens.len() > 1 { .. }` statement of
+# LRParser::next_token (longest match) and of GlrParser::find_lookaheads (longest match, then grammar order).
+
+def _if_tokens_block(src, fn, what):
+    """the unique statement `if tokens.len() > 1 { .. }` of fn -> (lo, hi) token range"""
+    t = src.toks
+    hits = [i for i in range(fn.body_open, fn.body_close) if t[i].kind == "ident" and t[i].text == "if"
+            and norm_tokens_local(src, i, i + 10).startswith("iftokens.len()>1{")]
+    if len(hits) != 1:
+        raise ExtractError(f"{what}: `if tokens.len() > 1 {{` not found exactly once")
+    lo = hits[0]
+    ob = lo
+    while t[ob].text != "{":
+        ob += 1
+    hi = src.match(ob) + 1
+    nxt = src.sig(hi)
+    if t[nxt].text == "else":
+        raise ExtractError(f"{what}: the statement has grown an else branch")
+    return lo, hi
+
+
+def _stmt_before(src, lo, fn):
+    """normalised text of the statement that ends right in front of token lo"""
+    t = src.toks
+    k = src.prev_sig(lo)
+    if t[k].text != ";":
+        return ""
+    j = k - 1
+    depth = 0
+    while j > fn.body_open:
+        if t[j].text in rsx.CLOSE:
+            depth += 1
+        elif t[j].text in rsx.OPEN:
+            if depth == 0:
+                break
+            depth -= 1
+        elif t[j].text == ";" and depth == 0:
+            break
+        j -= 1
+    return "".join(x.text for x in t[j + 1:k + 1] if x.kind not in ("ws", "comment"))
+
+
+def lr_longest_block_range(repo):
+    rel = "rustemo/src/lr/parser.rs"
+    src = rsx.Source(os.path.join(repo, rel))
+    imp = src.find_impl(r"^impl < 'i , C , S , P , I , TK , NTK , D , L , B > LRParser < 'i , C , S , P , TK , NTK , D , L , B , I >", has="next_token")
+    fn = imp.child("fn", "next_token")
+    t = src.toks
+    lo, hi = _if_tokens_block(src, fn, "lr longest-match block")
+    before = _stmt_before(src, lo, fn)
+    if before != "letmuttokens=next_tokens.collect::<Vec<_>>();":
+        raise ExtractError("lr longest-match block: the statement in front of the range changed: %r" % before)
+    # ... which must be the first statement of `if D::longest_match() {`
+    k = src.prev_sig(lo)
+    while t[k].text != "let":
+        k -= 1
+    guard = "".join(x.text for x in t[max(fn.body_open, k - 40):k] if x.kind not in ("ws", "comment"))
+    if not guard.endswith("letnext_token=ifD::longest_match(){"):
+        raise ExtractError("lr longest-match block: no longer guarded by `let next_token = if D::longest_match() {`: %r" % guard[-60:])
+    after = "".join(x.text for x in t[hi:hi + 40] if x.kind not in ("ws", "comment"))
+    if not after.startswith("tokens.into_iter().next()}else{next_tokens.next()};"):
+        raise ExtractError("lr longest-match block: what follows the range changed (expected `tokens.into_iter().next() } else { next_tokens.next() };`): %r" % after[:80])
+    block_text = src.text[t[lo].s:t[hi - 1].e]
+    used = set(idents(src, lo, hi))
+    outside = bound_names_outside(src, fn, lo, hi)
+    inside = bound_names_inside(src, lo, hi)
+    free = sorted(((outside & used) - inside) | ({"self"} if "self" in used else set()))
+    if free != ["tokens"]:
+        raise ExtractError(f"lr longest-match block: free variables changed: now {free}, declared ['tokens']")
+    sha = hashlib.sha256(block_text.encode()).hexdigest()[:16]
+    meta = {"lift": "lr_longest_block", "file": rel, "lines": [src.line_of(t[lo].s), src.line_of(t[hi - 1].e)], "sha256_16": sha, "free_variables": ["tokens"],
+            "note": "`tokens` is the local `let mut tokens = next_tokens.collect::<Vec<_>>()` (a Vec<Token<'i, I, TK>>) of the source and a `&mut Vec<Token<'i, I, TK>>` parameter here; "
+                    "the range is the whole longest-match filter of the LR parser: it is guarded by `if D::longest_match()`, preceded by the collect and followed by "
+                    "`tokens.into_iter().next()` (all three pinned: a change is exit 2); the generated function is a free generic function (the range does not mention self)"}
+    header = "fn lr_longest_block<'i, I: Input + ?Sized, TK>(tokens: &mut Vec<Token<'i, I, TK>>) {\n                "
+    return header + block_text + "\n}\n", meta
+
+
+def glr_disamb_block_range(repo):
+    rel = "rustemo/src/glr/parser.rs"
+    src = rsx.Source(os.path.join(repo, rel))
+    imp = src.find_impl(r"^impl < 'i , S , L , P , TK , NTK , D , I , B > GlrParser", has="find_lookaheads")
+    fn = imp.child("fn", "find_lookaheads")
+    t = src.toks
+    lo, hi = _if_tokens_block(src, fn, "glr disambiguation block")
+    guard = "".join(x.text for x in t[max(fn.body_open, lo - 12):lo] if x.kind not in ("ws", "comment"))
+    if not guard.endswith("if!tokens.is_empty(){"):
+        raise ExtractError("glr disambiguation block: no longer the first statement of `if !tokens.is_empty() {`: %r" % guard[-40:])
+    after = "".join(x.text for x in t[hi:hi + 8] if x.kind not in ("ws", "comment"))
+    if not after.startswith("returntokens;"):
+        raise ExtractError("glr disambiguation block: no longer followed by `return tokens;`: %r" % after[:40])
+    block_text = src.text[t[lo].s:t[hi - 1].e]
+    used = set(idents(src, lo, hi))
+    outside = bound_names_outside(src, fn, lo, hi)
+    inside = bound_names_inside(src, lo, hi)
+    free = sorted(((outside & used) - inside) | ({"self"} if "self" in used else set()))
+    if free != ["tokens"]:
+        raise ExtractError(f"glr disambiguation block: free variables changed: now {free}, declared ['tokens']")
+    sha = hashlib.sha256(block_text.encode()).hexdigest()[:16]
+    meta = {"lift": "glr_disamb_block", "file": rel, "lines": [src.line_of(t[lo].s), src.line_of(t[hi - 1].e)], "sha256_16": sha, "free_variables": ["tokens"],
+            "note": "`tokens` is the local `let mut tokens: Vec<_> = self.lexer.next_tokens(..).collect()` of the source and a `&mut Vec<Token<'i, I, TK>>` parameter here; "
+                    "the range is the first statement of `if !tokens.is_empty() {` and is followed by `return tokens;` (pinned); the generated function is a free "
+                    "generic function over the impl's D (the range calls D::longest_match() / D::grammar_order() and does not mention self)"}
+    header = ("fn glr_disamb_block<'i, I: Input + ?Sized, S, P, TK, NTK, D: ParserDefinition<S, P, TK, NTK>>(tokens: &mut Vec<Token<'i, I, TK>>) {\n                ")
+    return header + block_text + "\n}\n", meta
+
+
+VERUS_LIFTS["lr_longest_block"] = lr_longest_block_range
+VERUS_LIFTS["glr_disamb_block"] = glr_disamb_block_range
+
+
 def lift_conflict_block(repo, gen):
     block_text, then_body, meta = conflict_block_range(repo)
     rel, declared, sha = meta["file"], meta["free_variables"], meta["sha256_16"]
